@@ -4,6 +4,11 @@
 //!       `DistanceMatrix::new(order, inf)`, the `IndexMut<(u, v)>` writes in order, then
 //!       => [ecc..] diam [center..] [periphery..] true|false [read..] [raw..]
 //!          | panic-new | [panic-set k]
+//!   dm_si order inf default [[u w]..] [[u v w]..]   (W = isize)   dm_su .. (W = usize)
+//!       sparse description for large orders: `new`, then `default` into every cell (skipped when
+//!       equal to `inf`), whole-row fills, cell exceptions — all through `IndexMut<(u, v)>`
+//!       => [ecc..] diam [center..] [periphery..] true|false
+//!   dm_fw2 / dm_fw3: as dm_fw with `distances()` called 2 / 3 times on the same object
 //!   dm_fw [wi n warcs]
 //!       `FloydWarshall::new(&digraph).distances()`
 //!       => inf [entry (u,v) row-major..] [ecc..] diam [center..] [periphery..] true|false
@@ -78,11 +83,46 @@ fn build<T: W>(args: &[V]) -> Option<Vec<V>> {
     Some(out)
 }
 
+fn sparse<T: W>(args: &[V]) -> Option<Vec<V>> {
+    let [order, inf, dflt, fills, cells] = args else { return None };
+    let n = order.as_usize()?;
+    let inf = T::of(inf)?;
+    let dflt = T::of(dflt)?;
+    let mut m = DistanceMatrix::<T>::new(n, inf);
+    if dflt != inf {
+        for u in 0..n {
+            for v in 0..n {
+                m[(u, v)] = dflt;
+            }
+        }
+    }
+    for f in fills.as_list()? {
+        let f = f.as_list()?;
+        if f.len() != 2 {
+            return None;
+        }
+        let (u, w) = (f[0].as_usize()?, T::of(&f[1])?);
+        for v in 0..n {
+            m[(u, v)] = w;
+        }
+    }
+    for c in cells.as_list()? {
+        let c = c.as_list()?;
+        if c.len() != 3 {
+            return None;
+        }
+        m[(c[0].as_usize()?, c[1].as_usize()?)] = T::of(&c[2])?;
+    }
+    Some(metrics(&m))
+}
+
 pub fn eval(op: &str, args: &[V]) -> Option<Vec<V>> {
     match op {
         "dm_i" => build::<isize>(args),
         "dm_u" => build::<usize>(args),
-        "dm_fw" => {
+        "dm_si" => sparse::<isize>(args),
+        "dm_su" => sparse::<usize>(args),
+        "dm_fw" | "dm_fw2" | "dm_fw3" => {
             let [g] = args else { return None };
             let d = Desc::parse(g)?;
             if d.repr != "wi" {
@@ -91,6 +131,10 @@ pub fn eval(op: &str, args: &[V]) -> Option<Vec<V>> {
             let n = d.order();
             let digraph = d.build_wi();
             let mut fw = FloydWarshall::new(&digraph);
+            // state carried between calls: the matrix of the LAST call is observed
+            for _ in 1..(if op == "dm_fw3" { 3 } else if op == "dm_fw2" { 2 } else { 1 }) {
+                let _ = fw.distances();
+            }
             let m = fw.distances();
             let mut out = vec![m.infinity.show()];
             out.push(V::L((0..n).flat_map(|u| (0..n).map(move |v| (u, v))).map(|uv| m[uv].show()).collect()));
@@ -196,7 +240,156 @@ fn gen_reads(rng: &mut Rng, n: usize) -> V {
     }))
 }
 
+/// Orders around the thresholds the round-2 seeds used (256-entry blocks, halves of a row).
+fn gen_large_order(rng: &mut Rng, huge: bool) -> usize {
+    match rng.below(if huge { 12 } else { 10 }) {
+        0..=5 => 255 + rng.below(46),      // 255..300, odd and even
+        6 => *rng.pick(&[255, 256, 257, 258, 259, 299, 300, 301]),
+        7..=9 => 511 + rng.below(10),      // 511..520
+        10 => *rng.pick(&[192, 193, 384, 385, 640, 641]),
+        _ => *rng.pick(&[767, 768, 769, 770, 1025]),
+    }
+}
+
+/// A column that a block-wise / split / strided scan may forget.
+fn special_col(rng: &mut Rng, n: usize) -> usize {
+    let c = match rng.below(12) {
+        0..=3 => n - 1,
+        4 => n - 2,
+        5 => 0,
+        6 => n / 2,
+        7 => n / 2 - 1,
+        8 => *rng.pick(&[255, 256, 257, 127, 128, 63, 64]),
+        9 => (n / 256) * 256,              // first column of the last block
+        10 => n / 2 + 1,
+        _ => rng.below(n),
+    };
+    c.min(n - 1)
+}
+
+/// One large matrix in the sparse encoding. Values stay small; `inf` is the type maximum or small.
+fn gen_large(rng: &mut Rng, n: usize, emit: &mut dyn FnMut(String)) {
+    let signed = rng.chance(1, 2);
+    let tmax = if signed { isize::MAX as i128 } else { usize::MAX as i128 };
+    let inf = if rng.chance(2, 3) { tmax } else { 1000 };
+    let op = if signed { "dm_si" } else { "dm_su" };
+    let mut fills: Vec<(usize, i128)> = Vec::new();
+    let mut cells: Vec<(usize, usize, i128)> = Vec::new();
+    let rows = |rng: &mut Rng, k: usize| -> Vec<usize> {
+        // a few rows: first, last, around the block boundary, random
+        let mut r: Vec<usize> = (0..k)
+            .map(|_| match rng.below(6) { 0 => 0, 1 => n - 1, 2 => (255 + rng.below(3)).min(n - 1), 3 => n / 2, _ => rng.below(n) })
+            .collect();
+        r.sort_unstable();
+        r.dedup();
+        r
+    };
+    let dflt: i128;
+    match rng.below(8) {
+        0 => {
+            // every row ties the minimum (constant matrix), a few rows raised at a special column
+            dflt = 5;
+            for u in { let k = rng.below(4); rows(rng, k) } { cells.push((u, special_col(rng, n), 9)); }
+        }
+        1 => {
+            // few minimal rows (ties among minimal eccentricities), far apart
+            dflt = 7;
+            for u in { let k = 2 + rng.below(5); rows(rng, k) } { fills.push((u, 3)); }
+            // … some of which attain the minimum only at a special column
+            if rng.chance(1, 2) {
+                let u = rng.below(n);
+                fills.push((u, 1));
+                cells.push((u, special_col(rng, n), 3));
+            }
+        }
+        2 => {
+            // row maximum ONLY in a special (mostly the last) column, for many rows
+            dflt = 4;
+            let all = rng.chance(1, 2);
+            for u in 0..n {
+                if all || rng.chance(1, 8) { cells.push((u, special_col(rng, n), 6 + rng.below(3) as i128)); }
+            }
+        }
+        3 => {
+            // infinity ONLY in the last / a special column
+            dflt = 2;
+            let col_last = rng.chance(2, 3);
+            for u in { let k = 1 + rng.below(6); rows(rng, k) } {
+                cells.push((u, if col_last { n - 1 } else { special_col(rng, n) }, inf));
+            }
+        }
+        4 => {
+            // everything infinite except a few finite cells / rows: center = all or the finite rows
+            dflt = inf;
+            for u in { let k = rng.below(4); rows(rng, k) } { fills.push((u, 8)); }
+            for _ in 0..rng.below(5) { cells.push((rng.below(n), special_col(rng, n), 1)); }
+        }
+        5 => {
+            // ascending rows: row u is constant u % k (periodic ties), maximum rows tie too
+            dflt = 0;
+            let k = 2 + rng.below(5);
+            for u in 0..n { fills.push((u, (u % k) as i128 + 1)); }
+            for u in { let k = rng.below(3); rows(rng, k) } { cells.push((u, special_col(rng, n), k as i128 + 1)); }
+        }
+        6 => {
+            // dominant diagonal: the row maximum is d(u, u) only
+            dflt = 1;
+            for u in 0..n { if rng.chance(1, 2) { cells.push((u, u, 5)); } }
+        }
+        _ => {
+            // unique minimum row late in the matrix, ties among the others
+            dflt = 6;
+            let u = n - 1 - rng.below(3);
+            fills.push((u, 2));
+            cells.push((u, special_col(rng, n), 4));
+            for u in { let k = rng.below(3); rows(rng, k) } { cells.push((u, special_col(rng, n), 6)); }
+        }
+    }
+    let fills_v = V::L(fills.iter().map(|&(u, w)| V::L(vec![V::u(u), V::I(w)])).collect());
+    emit(format!("{op} {n} {inf} {dflt} {fills_v} {}", show_ws(&cells)));
+}
+
+/// FloydWarshall on unit / weighted circuits and paths of order around 257..301.
+fn gen_large_fw(rng: &mut Rng, emit: &mut dyn FnMut(String)) {
+    let n = *rng.pick(&[255usize, 256, 257, 258, 259, 281, 299, 300, 301]);
+    let w = if rng.chance(2, 3) { 1 } else { 1 + rng.below(3) as i128 };
+    let mut arcs: Vec<(usize, usize)> = (0..n - 1).map(|u| (u, u + 1)).collect();
+    match rng.below(4) {
+        0 => {}                                   // path
+        1 | 2 => arcs.push((n - 1, 0)),           // circuit
+        _ => { arcs.push((n - 1, 0)); arcs.push((rng.below(n), rng.below(n - 1) + 1)); } // circuit + chord
+    }
+    arcs.retain(|&(u, v)| u != v);
+    arcs.sort_unstable();
+    arcs.dedup();
+    let k = arcs.len();
+    let d = Desc { repr: "wi".to_string(), verts: (0..n).collect(), arcs, weights: vec![w; k] };
+    let op = match rng.below(6) { 0 => "dm_fw2", 1 => "dm_fw3", _ => "dm_fw" };
+    emit(format!("{op} {}", d.to_v()));
+}
+
 pub fn gen(rng: &mut Rng, thorough: bool, emit: &mut dyn FnMut(String)) {
+    // (L) large orders (round 2): most promising first; in the stress tier ONLY these
+    if crate::stress() {
+        for n in [300usize, 257, 260, 301, 513, 512] {
+            // constant matrices: every vertex is central and peripheral
+            emit(format!("dm_su {n} {} 4 [] []", usize::MAX));
+            // infinity only in the last column of one row
+            emit(format!("dm_su {n} {} 6 [] [[5 {} {}]]", usize::MAX, n - 1, usize::MAX));
+        }
+        for _ in 0..2 { gen_large_fw(rng, emit); }
+        for i in 0..520 {
+            let n = gen_large_order(rng, i % 40 == 39);
+            gen_large(rng, n, emit);
+            if i % 30 == 7 { gen_large_fw(rng, emit); }
+        }
+        return;
+    }
+    for i in 0..(if thorough { 120 } else { 16 }) {
+        let n = gen_large_order(rng, false);
+        gen_large(rng, n, emit);
+        if i % 40 == 3 { gen_large_fw(rng, emit); }
+    }
     let imax = isize::MAX as i128;
     let imin = isize::MIN as i128;
     let umax = usize::MAX as i128;
@@ -265,6 +458,8 @@ pub fn gen(rng: &mut Rng, thorough: bool, emit: &mut dyn FnMut(String)) {
         // negative weights (negative circuits make entries shrink geometrically) only on small orders
         let (lo, hi) = match rng.below(4) { 0 => (1, 1), 1 => (0, 3), 2 => (1, 100), _ => if max <= 12 { (-3, 20) } else { (0, 9) } };
         let (_, d) = graphs::gen_wdesc(rng, "wi", max, lo, hi);
-        emit(format!("dm_fw {}", d.to_v()));
+        // repeated `distances()` on the same object (state carried between calls): non-negative weights only
+        let op = if lo >= 0 && rng.chance(1, 6) { if rng.chance(1, 2) { "dm_fw2" } else { "dm_fw3" } } else { "dm_fw" };
+        emit(format!("{op} {}", d.to_v()));
     }
 }
